@@ -11,7 +11,9 @@ import (
 	"fmt"
 	"io"
 	"os"
+	"os/exec"
 	"runtime"
+	"runtime/debug"
 	"strings"
 	"sync"
 	"time"
@@ -793,10 +795,60 @@ func runC03(c *checker, r *rng.R) {
 		c03Input(c, r, anyType(), b, "random")
 	}
 	c.flush()
+	c03DeepProbe(c)
 	c.rep.Rule = "byte strings: valid encodings, truncation at every offset of encodings ≤24 bytes, grammar-aware mutations (bit/byte flips, type-byte swaps, length/count edits incl. negative and 2^31-1, insert/delete/truncate/append), uniform random; × requested type (11 valid + random invalid) × {random-access+force, stream under random segmentation incl. 1-byte and zero-length reads, skip with and without seek}; non-trivial = non-empty input; distinct by (type, bytes)"
 }
 
+// deepChild is the body of the child process of c03DeepProbe: struct-in-struct nesting of `depth`
+// levels (4·depth+1 bytes) through Skip and through the random-access decoder, under a goroutine
+// stack limit of 64 MiB (Go's default is 1 GiB: the same recursion then needs ~16 times the depth).
+func deepChild(mode string, depth int) {
+	debug.SetMaxStack(64 << 20)
+	b := bytes.Repeat([]byte{wv.TStruct, 0, 1}, depth)
+	b = append(b, bytes.Repeat([]byte{0}, depth+1)...)
+	var err error
+	if mode == "skip" {
+		sr := binary.NewStreamReader(bytes.NewReader(b))
+		err = sr.Skip(wire.TStruct)
+		sr.Close()
+	} else {
+		_, err = binary.Default.Decode(bytes.NewReader(b), wire.TStruct)
+	}
+	fmt.Println("returned", err)
+}
+
+// c03DeepProbe: known finding D78. Skip and both decoders recurse once per nesting level without a
+// bound of their own; input nested deeply enough exhausts the goroutine stack, which is a fatal
+// error of the Go runtime (it cannot be recovered, the process dies).
+func c03DeepProbe(c *checker) {
+	for _, mode := range []string{"skip", "decode"} {
+		cmd := exec.Command(os.Args[0])
+		cmd.Env = append(os.Environ(), "VERIF_DEEP_CHILD="+mode, "GOMEMLIMIT=2GiB")
+		out, err := cmd.CombinedOutput()
+		c.rep.Hist("how", "D78 probe: 600000 nested structs in a child with a 64 MiB stack limit")
+		switch {
+		case err != nil && strings.Contains(string(out), "stack overflow"):
+			c.rep.Known = append(c.rep.Known, report.Known{ID: "D78", What: fmt.Sprintf("%s of 600 000 nested structs (2.4 MB) under a 64 MiB goroutine stack limit: fatal error: stack overflow, the process dies (with Go's default 1 GiB limit about 4 000 000 levels, 16 MB, do the same)", mode)})
+		case err == nil && strings.HasPrefix(string(out), "returned"):
+			c.rep.Notes = append(c.rep.Notes, "D78 probe ("+mode+"): the child returned normally ("+strings.TrimSpace(string(out))+") — the finding appears to be repaired; known_findings.json should say so")
+		default:
+			c.oracle("C03 deep-nesting probe died in an unexpected way", "deep "+mode, summarizeOut(string(out)), fmt.Sprint(err))
+		}
+	}
+}
+
+func summarizeOut(s string) string {
+	if len(s) > 400 {
+		return s[:400] + "…"
+	}
+	return s
+}
+
 func main() {
+	if mode := os.Getenv("VERIF_DEEP_CHILD"); mode != "" {
+		deepChild(mode, 600000)
+		return
+	}
 	flag.Parse()
 	rep := report.New(*prop)
 	c := &checker{rep: rep}
